@@ -94,6 +94,20 @@ def check_text(clsname, text, offsets=None, source=None, prev=None):
             fails.append((p, dict(bucket=f'{clsname}:exception:{type(e).__name__}:{"p==len" if p == len(text) else "p<len"}',
                                   oracle='lineinfo/lineat/poscol raised', observed=repr(e))))
             continue
+        if p <= len(text):
+            # the same question asked of a cursor that stands at p, without an explicit offset (how a failure is reported): a clone
+            # moved there; the first cursor stays where it was
+            try:
+                c2 = c.clone()
+                c2.goto(p)
+                li0, la0, pc0 = c2.lineinfo(), c2.lineat(), c2.poscol()
+            except Exception as e:
+                fails.append((p, dict(bucket=f'{clsname}:exception-at-cursor:{type(e).__name__}', oracle='lineinfo()/lineat()/poscol() of a cursor at p raised', observed=repr(e))))
+                continue
+            if (tuple(li0), la0, pc0) != (tuple(li), la, pc):
+                fails.append((p, dict(bucket=f'{clsname}:at-cursor', oracle='a cursor moved to p answers lineinfo()/lineat()/poscol() as lineinfo(p)/lineat(p)/poscol(p)',
+                                      expected=repr((tuple(li), la, pc)), observed=repr((tuple(li0), la0, pc0)))))
+                continue
         if p < len(text):
             ln, col, s, l = expect(lines, p)
             got = (li.line, li.col, li.start, li.text.rstrip('\r\n'))
